@@ -22,7 +22,10 @@ FATAL = {
     # C20: the niche and the representation invariants, plus C01-C03's predicates on every build configuration
     "C20": {"always": ("NicheFree", "PtrOK", "TextOK", "ResultOK", "Isolation", "StaticsOK", "RcOK", "BlocksOK", "NoResizeShared", "EndClean", "Abort"),
             "shim": MEMSHIM, "must_exercise": ("InlineEdit",)},
-    "C10": {"always": ("StaticBorrow", "StaticPrefix", "StaticsOK"), "must_exercise": ("StaticBorrow",)},
+    # "the first operation that needs to write or grow moves the handle to its own storage with the correct contents":
+    # text / outcome / capacity predicates count for calls whose target was a static handle
+    "C10": {"always": ("StaticBorrow", "StaticPrefix", "StaticsOK"), "when_target": {"static": ("TextOK", "ResultOK", "CapOK", "Utf8OK")},
+            "must_exercise": ("StaticBorrow",)},
     "C11": {"always": ("CapOK", "WithCap", "ReservePost", "NoReallocInCap"), "must_exercise": ("WithCap", "ReservePost", "NoReallocInCap"), "conv": ("NoMoveOK", "BigOpOK")},
     "C12": {"always": ("Growth",), "must_exercise": ("Growth",), "conv": ("GrowOK", "LoopOK")},
     "C13": {"always": ("ShrinkPost",), "must_exercise": ("ShrinkPost",)},
